@@ -24,5 +24,5 @@ except Exception as e: print("PARSE-ERROR",e,t[-300:])
   echo "=== $pid/$i $out"
 }
 export -f one
-for t in $todo; do echo $t; done | xargs -P 3 -I{} bash -c 'one {}'
+for t in $todo; do echo $t; done | xargs -P ${JOBS:-3} -I{} bash -c 'one {}'
 echo DONE
